@@ -180,10 +180,22 @@ def parse_adbasic_program(filename: str, include_dir: str) -> list[SymbolInfo]:
 
     files_remaining = [filename]
 
+    # Keep track of files that were already parsed, to parse each file only once.
+    # This also ends the loop when include files (directly or indirectly) include each other.
+    files_parsed: set[str] = set()
+
     all_defined_symbols = []
 
     while files_remaining:
         sourcefile = files_remaining.pop(0)
+
+        # Skip files that were already parsed.
+        norm_sourcefile = os.path.normpath(sourcefile)
+        if norm_sourcefile in files_parsed:
+            _logger.debug("Skipping %s (already parsed)", sourcefile)
+            continue
+        files_parsed.add(norm_sourcefile)
+
         (defined_symbols, include_paths) = _parse_single_adbasic_file(sourcefile)
         all_defined_symbols.extend(defined_symbols)
 
